@@ -11,6 +11,16 @@ pub mod hash_map {
 }
 pub mod hash_set { pub use super::HashSet; }
 
+/// S4 model of `memchr::memchr`: first index of `needle` in `haystack` (linear scan).
+pub fn naive_memchr(needle: u8, haystack: &[u8]) -> Option<usize> {
+    let mut i = 0;
+    while i < haystack.len() {
+        if haystack[i] == needle { return Some(i); }
+        i += 1;
+    }
+    None
+}
+
 pub const CAP: usize = 4;
 /// Fixed inline slots (no realloc, no memmove: keeps CBMC's constant propagation alive) + overflow Vec for the few large maps.
 pub struct HashMap<K, V, S = ()> { slots: [Option<(K, V)>; CAP], extra: Vec<(K, V)>, n: usize, _s: PhantomData<S> }
